@@ -66,6 +66,7 @@ class Env:
         if self.sym:
             v = z3.Real(name)
             self.vars[name] = v
+            self.ctx.input_ids.add(v.get_id())
             self.varbounds[name] = (lo, hi)
             if lo is not None:
                 self.ctx.assume(v > S.toz(lo) if lo_strict else v >= S.toz(lo))
@@ -200,7 +201,7 @@ class Env:
         if isinstance(cond, (bool, np.bool_)):
             return bool(cond)
         neg = z3.Not(cond)
-        if is_nonlinear(neg) and self.rec._abstract_unsat(self, neg, timeout=min(timeout, 10000)):
+        if (is_nonlinear(neg) or any(is_nonlinear(c) for c in self.ctx.relevant([neg]))) and self.rec._abstract_unsat(self, neg, timeout=min(timeout, 10000)):
             return True
         r, _ = self.rec._query([neg], timeout)
         return r == z3.unsat
@@ -353,7 +354,7 @@ class PathRecord:
             nonneg.add(y.get_id())
         t0 = time.time()
         try:
-            asserts, ab = abstract_query(self.ctx.relevant([neg]), neg, nonneg)
+            asserts, ab = abstract_query(self.ctx.relevant([neg]), neg, nonneg, self.ctx.input_ids)
             s = z3.Solver()
             s.set("timeout", timeout)
             s.add(*asserts)
@@ -384,7 +385,7 @@ class PathRecord:
                 self.discharged += 1
                 return
             neg = z3.Not(cond)
-        if is_nonlinear(neg):
+        if is_nonlinear(neg) or any(is_nonlinear(c) for c in self.ctx.relevant([neg])):
             # non-linear obligation: try the linear-form abstraction first (sound for unsat)
             if self._abstract_unsat(env, neg):
                 self.discharged += 1
